@@ -5564,7 +5564,15 @@ func (a *Agent) handleSleepCommand(peerID identity.AgentID, frame *protocol.Fram
 		return
 	}
 
-	// Process through flooder for deduplication and forwarding
+	a.applySleepCommand(peerID, cmd)
+}
+
+// applySleepCommand admits a sleep command received from a peer, whether it arrived in a
+// SLEEP_COMMAND frame or inside a QUEUED_STATE frame: the flooder de-duplicates it, verifies
+// signature and timestamp when a signing key is configured, and forwards it; only then does
+// the agent enter sleep mode.
+func (a *Agent) applySleepCommand(peerID identity.AgentID, cmd *protocol.SleepCommand) {
+	// Process through flooder for deduplication, verification and forwarding
 	if !a.flooder.HandleSleepCommand(peerID, cmd) {
 		return
 	}
@@ -5593,7 +5601,13 @@ func (a *Agent) handleWakeCommand(peerID identity.AgentID, frame *protocol.Frame
 		return
 	}
 
-	// Process through flooder for deduplication and forwarding
+	a.applyWakeCommand(peerID, cmd)
+}
+
+// applyWakeCommand admits a wake command received from a peer (WAKE_COMMAND frame or
+// QUEUED_STATE frame) under the same checks as applySleepCommand, then wakes the agent.
+func (a *Agent) applyWakeCommand(peerID identity.AgentID, cmd *protocol.WakeCommand) {
+	// Process through flooder for deduplication, verification and forwarding
 	if !a.flooder.HandleWakeCommand(peerID, cmd) {
 		return
 	}
@@ -5679,20 +5693,14 @@ func (a *Agent) handleQueuedState(peerID identity.AgentID, frame *protocol.Frame
 		a.flooder.HandleNodeInfoAdvertise(peerID, nodeInfo.OriginAgent, nodeInfo.Sequence, nodeInfo.EncInfo, nodeInfo.SeenBy)
 	}
 
-	// Check for sleep/wake commands in queued state
-	if state.SleepCmd != nil && a.sleepMgr != nil {
-		a.logger.Info("entering sleep mode from queued command")
-		if err := a.sleepMgr.Sleep(); err != nil {
-			a.logger.Error("failed to enter sleep mode from queued command",
-				logging.KeyError, err)
-		}
+	// Check for sleep/wake commands in queued state. They are admitted exactly like
+	// flooded commands: de-duplicated and, when a signing key is configured, accepted
+	// only with a valid signature and a timestamp inside the validity window.
+	if state.SleepCmd != nil {
+		a.applySleepCommand(peerID, state.SleepCmd)
 	}
-	if state.WakeCmd != nil && a.sleepMgr != nil {
-		a.logger.Info("waking from queued command")
-		if err := a.sleepMgr.Wake(); err != nil {
-			a.logger.Error("failed to wake from queued command",
-				logging.KeyError, err)
-		}
+	if state.WakeCmd != nil {
+		a.applyWakeCommand(peerID, state.WakeCmd)
 	}
 }
 
